@@ -98,7 +98,43 @@ func c04policy(r *gen.R) *model.Policy {
 				model.IsIn(model.Lit(u), u.T, model.Lit(gen.RandUID(r))),
 				model.Bin(model.OIn, model.Lit(u), model.SetE(model.Lit(gen.RandUID(r)), model.Lit(gen.RandUID(r)))),
 			}
-			switch r.Intn(6) {
+			switch r.Intn(12) {
+			case 9:
+				// absorbing constant on the RIGHT of a request/store-dependent left operand that may fail
+				gv := &gen.G{R: r, Cfg: gen.ExprCfg{PIll: 0.15, SafeDT: true}}
+				left := gv.Expr(1+r.Intn(2), model.KBool)
+				if r.Bool() {
+					base := model.Access(model.Var(mon.Pick(r, []string{"context", "principal", "resource"})), mon.Pick(r, gen.AttrNames))
+					left = model.Has(base, mon.Pick(r, gen.AttrNames))
+				}
+				if r.Bool() {
+					body = model.Bin(model.OOr, left, model.Lit(model.Bool(true)))
+				} else {
+					body = model.Bin(model.OAnd, left, model.Lit(model.Bool(false)))
+				}
+			case 10:
+				// reflexive membership with an ill-typed set member
+				switch r.Intn(3) {
+				case 0:
+					body = model.Bin(model.OIn, model.Lit(u), model.SetE(model.Lit(u), junk))
+				case 1:
+					body = model.Bin(model.OIn, model.Lit(u), model.Lit(model.Set(u, gen.RandVal(r, 1))))
+				default:
+					body = model.IsIn(model.Lit(u), u.T, model.SetE(junk, model.Lit(u)))
+				}
+			case 11:
+				body = model.Bin(mon.Pick(r, []model.Op{model.OAnd, model.OOr}), mon.Pick(r, storeDep), model.Lit(model.Bool(r.Bool())))
+			case 6:
+				// a short-circuit operator whose *evaluated* right operand is not boolean, below a
+				// parent that does not itself demand a boolean
+				inner := model.Bin(model.OAnd, model.Lit(model.Bool(true)), junk)
+				body = model.Bin(mon.Pick(r, []model.Op{model.OEq, model.ONe}), inner, g2.Expr(1, gen.RandKind(r)))
+			case 7:
+				inner := model.Bin(model.OOr, model.Lit(model.Bool(false)), junk)
+				body = model.Bin(model.OContains, model.SetE(inner, g2.Expr(1, gen.RandKind(r))), junk)
+			case 8:
+				inner := model.If(model.Lit(model.Bool(r.Bool())), junk, g2.Expr(1, gen.RandKind(r)))
+				body = model.Bin(model.OEq, model.RecE([]string{"k"}, []*model.Expr{inner}), model.RecE([]string{"k"}, []*model.Expr{junk}))
 			case 0:
 				body = model.Bin(model.OAnd, model.Lit(model.Bool(false)), junk)
 			case 1:
@@ -128,83 +164,137 @@ func C04(c *mon.Ctx) {
 	c.ParFor("policies", n, func(w *mon.W, i int) {
 		r := w.Rand()
 		mp := c04policy(r)
-		p := bridge.ToPolicy(mp)
-		ref := bridge.ToPolicy(mp) // never handed to cedar-go's compiler
-		fp0 := Fingerprint(p)
-		if fp0 != Fingerprint(ref) {
-			w.Violation("harness:nondeterministic-fingerprint", "two identical ASTs fingerprint differently", nil)
-			return
-		}
-		refPub := (*cedarASTPolicy)(ref)
-		text0 := string(refPub.MarshalCedar())
-		json0, jerr0 := refPub.MarshalJSON()
-		cp := NewPolicy(p)
-		folded := verifhooks.FoldPolicy(ref)
-		changed := Fingerprint(folded) != fp0
-		if Fingerprint(ref) != fp0 {
-			w.Violation("fold mutates its input AST", "FoldPolicy changed the AST it was given", map[string]any{"policy": render.CanonPolicy(mp)})
-		}
-		if changed {
-			w.NonTrivial(render.CanonPolicy(mp))
-			w.Count("folder changed the tree")
-			for _, cd := range mp.Conds {
-				w.Count("fold-candidate root op " + opName(cd.Body))
-			}
-		} else {
-			w.Count("folder left the tree unchanged")
-		}
-		var m gen.Mentions
-		gen.CollectPolicy(&m, mp)
-		for k := 0; k < 8; k++ {
-			env := gen.EnvFor(r, &m, k == 0)
-			ents := bridge.ToEntityMap(env)
-			cenv := bridge.ToEvalEnv(env, ents)
-			req := bridge.ToRequest(env)
-			od, dd := outcomeDirect(ref, cenv)
-			oc, dc := outcomeCompiled(cp, ents, req)
-			of, df := outcomeDirect(folded, cenv)
-			w.Evals(1)
-			w.Count("outcome " + od.String())
-			if oc != od || of != od {
-				om, _ := model.PolicyOutcome(mp, env)
-				which := "compiled"
-				bad, det := oc, dc
-				if oc == od {
-					which, bad, det = "folded-ast", of, df
-				}
-				// localise: which condition's fold differs
-				culprit := "?"
-				for ci, cd := range mp.Conds {
-					one := &ast.Policy{Effect: ast.EffectPermit, Principal: ast.ScopeTypeAll{}, Action: ast.ScopeTypeAll{}, Resource: ast.ScopeTypeAll{},
-						Conditions: []ast.ConditionType{{Condition: ast.ConditionWhen, Body: bridge.ToNode(cd.Body)}}}
-					o1, _ := outcomeDirect(one, cenv)
-					o2, _ := outcomeDirect(verifhooks.FoldPolicy(one), cenv)
-					if o1 != o2 {
-						culprit = fmt.Sprintf("condition %d root %s", ci, opName(cd.Body))
-						break
-					}
-				}
-				w.Violation(fmt.Sprintf("%s: direct=%s optimised=%s", which, od, bad),
-					fmt.Sprintf("policy `%s`: direct evaluation is %s (%s) but the %s form is %s (%s); reference model says %s; %s", render.CanonPolicy(mp), od, dd, which, bad, det, om, culprit),
-					map[string]any{"policy": render.CanonPolicy(mp), "env": envWitness(env), "direct": od.String() + " " + dd, "optimised": bad.String() + " " + det, "model": om.String(), "culprit": culprit})
-				break
-			}
-		}
-		// the caller-visible AST and renderings are untouched
-		if fp := Fingerprint(p); fp != fp0 {
-			w.Violation("compile/authorize mutates the caller's AST", "the ast.Policy given to NewPolicyFromAST changed", map[string]any{"policy": render.CanonPolicy(mp), "before": fp0, "after": fp})
-		}
-		if got := string(cp.MarshalCedar()); got != text0 {
-			w.Violation("Policy.MarshalCedar differs from the untouched AST's", "compiled policy renders differently", map[string]any{"want": text0, "got": got})
-		}
-		if got, err := cp.MarshalJSON(); (err != nil) != (jerr0 != nil) || string(got) != string(json0) {
-			w.Violation("Policy.MarshalJSON differs from the untouched AST's", "compiled policy encodes differently", map[string]any{"want": string(json0), "got": string(got)})
-		}
-		if !reflect.DeepEqual((*ast.Policy)(cp.AST()), ref) {
-			w.Violation("Policy.AST() differs from the original AST", "Policy.AST() is not the tree that was compiled", map[string]any{"policy": render.CanonPolicy(mp)})
-		}
-		if i%3000 == 0 {
-			w.Sample("policy", map[string]any{"policy": render.CanonPolicy(mp), "folder_changed_tree": changed})
+		c04check(w, r, mp, i)
+		if tw, ok := c04twin(mp); ok {
+			w.Count("type-confused twin compiled right after its original")
+			c04check(w, r, tw, -1)
 		}
 	})
+}
+
+func c04check(w *mon.W, r *gen.R, mp *model.Policy, i int) {
+	p := bridge.ToPolicy(mp)
+	ref := bridge.ToPolicy(mp) // never handed to cedar-go's compiler
+	fp0 := Fingerprint(p)
+	if fp0 != Fingerprint(ref) {
+		w.Violation("harness:nondeterministic-fingerprint", "two identical ASTs fingerprint differently", nil)
+		return
+	}
+	refPub := (*cedarASTPolicy)(ref)
+	text0 := string(refPub.MarshalCedar())
+	json0, jerr0 := refPub.MarshalJSON()
+	cp := NewPolicy(p)
+	folded := verifhooks.FoldPolicy(ref)
+	changed := Fingerprint(folded) != fp0
+	if Fingerprint(ref) != fp0 {
+		w.Violation("fold mutates its input AST", "FoldPolicy changed the AST it was given", map[string]any{"policy": render.CanonPolicy(mp)})
+	}
+	if changed {
+		w.NonTrivial(render.CanonPolicy(mp))
+		w.Count("folder changed the tree")
+		for _, cd := range mp.Conds {
+			w.Count("fold-candidate root op " + opName(cd.Body))
+		}
+	} else {
+		w.Count("folder left the tree unchanged")
+	}
+	var m gen.Mentions
+	gen.CollectPolicy(&m, mp)
+	for k := 0; k < 8; k++ {
+		env := gen.EnvFor(r, &m, k == 0)
+		ents := bridge.ToEntityMap(env)
+		cenv := bridge.ToEvalEnv(env, ents)
+		req := bridge.ToRequest(env)
+		od, dd := outcomeDirect(ref, cenv)
+		oc, dc := outcomeCompiled(cp, ents, req)
+		of, df := outcomeDirect(folded, cenv)
+		w.Evals(1)
+		w.Count("outcome " + od.String())
+		if oc != od || of != od {
+			om, _ := model.PolicyOutcome(mp, env)
+			which := "compiled"
+			bad, det := oc, dc
+			if oc == od {
+				which, bad, det = "folded-ast", of, df
+			}
+			// localise: which condition's fold differs
+			culprit := "?"
+			for ci, cd := range mp.Conds {
+				one := &ast.Policy{Effect: ast.EffectPermit, Principal: ast.ScopeTypeAll{}, Action: ast.ScopeTypeAll{}, Resource: ast.ScopeTypeAll{},
+					Conditions: []ast.ConditionType{{Condition: ast.ConditionWhen, Body: bridge.ToNode(cd.Body)}}}
+				o1, _ := outcomeDirect(one, cenv)
+				o2, _ := outcomeDirect(verifhooks.FoldPolicy(one), cenv)
+				if o1 != o2 {
+					culprit = fmt.Sprintf("condition %d root %s", ci, opName(cd.Body))
+					break
+				}
+			}
+			w.Violation(fmt.Sprintf("%s: direct=%s optimised=%s", which, od, bad),
+				fmt.Sprintf("policy `%s`: direct evaluation is %s (%s) but the %s form is %s (%s); reference model says %s; %s", render.CanonPolicy(mp), od, dd, which, bad, det, om, culprit),
+				map[string]any{"policy": render.CanonPolicy(mp), "env": envWitness(env), "direct": od.String() + " " + dd, "optimised": bad.String() + " " + det, "model": om.String(), "culprit": culprit})
+			break
+		}
+	}
+	// the caller-visible AST and renderings are untouched
+	if fp := Fingerprint(p); fp != fp0 {
+		w.Violation("compile/authorize mutates the caller's AST", "the ast.Policy given to NewPolicyFromAST changed", map[string]any{"policy": render.CanonPolicy(mp), "before": fp0, "after": fp})
+	}
+	if got := string(cp.MarshalCedar()); got != text0 {
+		w.Violation("Policy.MarshalCedar differs from the untouched AST's", "compiled policy renders differently", map[string]any{"want": text0, "got": got})
+	}
+	if got, err := cp.MarshalJSON(); (err != nil) != (jerr0 != nil) || string(got) != string(json0) {
+		w.Violation("Policy.MarshalJSON differs from the untouched AST's", "compiled policy encodes differently", map[string]any{"want": string(json0), "got": string(got)})
+	}
+	if !reflect.DeepEqual((*ast.Policy)(cp.AST()), ref) {
+		w.Violation("Policy.AST() differs from the original AST", "Policy.AST() is not the tree that was compiled", map[string]any{"policy": render.CanonPolicy(mp)})
+	}
+	if i >= 0 && i%3000 == 0 {
+		w.Sample("policy", map[string]any{"policy": render.CanonPolicy(mp), "folder_changed_tree": changed})
+	}
+}
+
+// c04twin builds a "type-confused twin": the first extension-typed literal / constructor call
+// is replaced by the plain string that prints the same. Compiling the twin right after its
+// original exposes compile-time caches keyed on printed forms.
+func c04twin(mp *model.Policy) (*model.Policy, bool) {
+	done := false
+	var rw func(e *model.Expr) *model.Expr
+	rw = func(e *model.Expr) *model.Expr {
+		if !done {
+			if e.Op == model.OExt && len(e.Args) == 1 && e.Args[0].Op == model.OLit && e.Args[0].V.K == model.KString {
+				if _, ok := model.ExtArity[e.S]; ok && !model.ExtArity[e.S].Method {
+					done = true
+					return e.Args[0]
+				}
+			}
+			if e.Op == model.OLit {
+				switch e.V.K {
+				case model.KDecimal:
+					done = true
+					return model.Lit(model.Str(model.PrintDecimal(e.V.I)))
+				case model.KIP:
+					done = true
+					return model.Lit(model.Str(model.PrintIP(e.V.IP)))
+				case model.KDuration:
+					done = true
+					return model.Lit(model.Str(model.PrintDuration(e.V.I)))
+				case model.KDatetime:
+					done = true
+					return model.Lit(model.Str(model.PrintDatetime(e.V.I)))
+				}
+			}
+		}
+		c := *e
+		c.Args = make([]*model.Expr, len(e.Args))
+		for i, a := range e.Args {
+			c.Args[i] = rw(a)
+		}
+		return &c
+	}
+	tw := *mp
+	tw.Conds = make([]model.Cond, len(mp.Conds))
+	for i, cd := range mp.Conds {
+		tw.Conds[i] = model.Cond{When: cd.When, Body: rw(cd.Body)}
+	}
+	return &tw, done
 }
